@@ -6,11 +6,13 @@
      internal/ocirequest   listParams (create.go), setListQueryParams (request.go)
      ociclient/lister.go   pager, nextLink, Referrers
      ocifilter/select.go   accessCheckerRegistry.Repositories/Tags/Referrers, Select's check
+                           and listAll (after the repair of the "*" confusion)
      ocifilter/sub.go      subRegistry.Repositories/Tags/Referrers (after the repair that
                            prefixes the start point)
      ociunify/lister.go    mergeIter
      ocidebug/debug.go     logIterReturn
-     func.go               the error iterators of an unset Funcs field are ErrorSeq
+     func.go               Funcs.Repositories/Tags/Referrers: the set field's iterator, or
+                           ErrorSeq of the unsupported error
 
    Iterators are values of [Seq err T] (Base/Seq.v).  Items are byte strings: repository
    names, tags, and - for referrers - the digest of the descriptor (the listing order and
@@ -222,18 +224,20 @@ Inductive access := AccessRead | AccessWrite | AccessDelete | AccessList.
 
 Definition star : bytes := s "*".
 
-(* the check function Select builds from allow *)
+(* the check function Select builds from allow: name-unknown for every access kind but
+   write.  (Since the repair of the "*" confusion it has no special case for "*".) *)
 Definition select_check (allow : bytes -> bool) (repoName : bytes) (a : access) : option err :=
   if allow repoName then None
   else match a with
        | AccessWrite => Some ErrDenied
-       | AccessList => if beqb repoName star then None else Some ErrNameUnknown
        | _ => Some ErrNameUnknown
        end.
 
-Definition ac_Repositories (check : bytes -> access -> option err)
+(* accessCheckerRegistry.Repositories; listAll is the struct field Select sets:
+   if !r.listAll { if err := r.check("*", AccessList); err != nil { return ErrorSeq(err) } } *)
+Definition ac_Repositories (check : bytes -> access -> option err) (listAll : bool)
            (backend : bytes -> Seq err bytes) (startAfter : bytes) : Seq err bytes :=
-  match check star AccessList with
+  match (if listAll then None else check star AccessList) with
   | Some e => ErrorSeq e
   | None =>
       fun S y st =>
@@ -342,11 +346,38 @@ Record lister := {
 Definition mem_lister (m : memreg) : lister :=
   {| l_repos := mem_Repositories m; l_tags := mem_Tags m; l_refs := mem_Referrers m |}.
 
-(* a conforming scripted backend: the items after the start point, then maybe an error *)
-Definition script_lister (xs : list bytes) (oe : option err) : lister :=
-  {| l_repos := fun st => seq_of (filter (bltb st) xs) oe;
-     l_tags := fun _ st => seq_of (filter (bltb st) xs) oe;
-     l_refs := fun _ _ => seq_of xs oe |}.
+(* func.go: the three listing methods of *Funcs.  A field is a function or nil:
+     if f != nil && f.Repositories_ != nil { return f.Repositories_(ctx, startAfter) }
+     return ErrorSeq[string](f.newError(ctx, "Repositories", ""))
+   (newError without a NewError constructor: fmt.Errorf("%s: %w", name, ErrUnsupported)) *)
+Definition ErrUnsupported : err := E UNSUPPORTED [].
+
+Record funcs := {
+  f_Repositories : option (bytes -> Seq err bytes);
+  f_Tags : option (bytes -> bytes -> Seq err bytes);
+  f_Referrers : option (bytes -> bytes -> Seq err bytes)
+}.
+
+Definition funcs_Repositories (f : funcs) (startAfter : bytes) : Seq err bytes :=
+  match f_Repositories f with Some g => g startAfter | None => ErrorSeq ErrUnsupported end.
+Definition funcs_Tags (f : funcs) (repo startAfter : bytes) : Seq err bytes :=
+  match f_Tags f with Some g => g repo startAfter | None => ErrorSeq ErrUnsupported end.
+Definition funcs_Referrers (f : funcs) (repo digest : bytes) : Seq err bytes :=
+  match f_Referrers f with Some g => g repo digest | None => ErrorSeq ErrUnsupported end.
+
+Definition funcs_lister (f : funcs) : lister :=
+  {| l_repos := funcs_Repositories f; l_tags := funcs_Tags f; l_refs := funcs_Referrers f |}.
+
+(* the table with no field set: &ociregistry.Funcs{} *)
+Definition funcs_unset : funcs := {| f_Repositories := None; f_Tags := None; f_Referrers := None |}.
+
+(* a conforming scripted backend (a Funcs table with the three fields set): the items
+   after the start point, then maybe an error *)
+Definition script_funcs (xs : list bytes) (oe : option err) : funcs :=
+  {| f_Repositories := Some (fun st => seq_of (filter (bltb st) xs) oe);
+     f_Tags := Some (fun _ st => seq_of (filter (bltb st) xs) oe);
+     f_Referrers := Some (fun _ _ => seq_of xs oe) |}.
+Definition script_lister (xs : list bytes) (oe : option err) : lister := funcs_lister (script_funcs xs oe).
 
 (* ociclient over ociserver over a backend *)
 Definition hop_lister (wire : err -> err) (fuel : nat) (listPageSize : Z) (o : sopts) (b : lister) : lister :=
@@ -355,8 +386,8 @@ Definition hop_lister (wire : err -> err) (fuel : nat) (listPageSize : Z) (o : s
      l_tags := fun repo st => pager wire fuel (handleList o (l_tags b repo)) n st;
      l_refs := fun repo dg => client_Referrers wire (handleReferrers (l_refs b repo dg)) |}.
 
-Definition ac_lister (check : bytes -> access -> option err) (b : lister) : lister :=
-  {| l_repos := ac_Repositories check (l_repos b);
+Definition ac_lister (check : bytes -> access -> option err) (listAll : bool) (b : lister) : lister :=
+  {| l_repos := ac_Repositories check listAll (l_repos b);
      l_tags := ac_Tags check (l_tags b);
      l_refs := ac_Tags check (l_refs b) |}.      (* Referrers has the shape of Tags *)
 
@@ -380,7 +411,8 @@ Definition debug_lister (b : lister) : lister :=
 (* The registries the correspondence harness builds, as data. *)
 Inductive stack :=
   | KMem (m : memreg)                                   (* ocimem.New() filled with m *)
-  | KScript (xs : list bytes) (oe : option err)         (* scripted conforming backend *)
+  | KScript (xs : list bytes) (oe : option err)         (* scripted conforming backend (a Funcs table) *)
+  | KFuncs                                              (* &ociregistry.Funcs{}: no field set *)
   | KHop (listPageSize : Z) (o : sopts) (inner : stack) (* ociclient -> ociserver -> inner *)
   | KSelect (allowed : list bytes) (inner : stack)      (* ocifilter.Select, allow = membership *)
   | KSub (prefix : bytes) (inner : stack)               (* ocifilter.Sub *)
@@ -399,6 +431,7 @@ Fixpoint stack_size (k : stack) : nat :=
   match k with
   | KMem m => mem_size m
   | KScript xs _ => length xs
+  | KFuncs => O
   | KHop _ _ i | KSelect _ i | KSub _ i | KDebug i => stack_size i
   | KUnify a b => (stack_size a + stack_size b)%nat
   end.
@@ -410,8 +443,9 @@ Fixpoint interp (fuel : nat) (k : stack) : lister :=
   match k with
   | KMem m => mem_lister m
   | KScript xs oe => script_lister xs oe
+  | KFuncs => funcs_lister funcs_unset
   | KHop n o i => hop_lister wire_id fuel n o (interp fuel i)
-  | KSelect al i => ac_lister (select_check (fun r => mem_bytes r al)) (interp fuel i)
+  | KSelect al i => ac_lister (select_check (fun r => mem_bytes r al)) true (interp fuel i)
   | KSub p i => sub_lister p (interp fuel i)
   | KUnify a b => unify_lister (interp fuel a) (interp fuel b)
   | KDebug i => debug_lister (interp fuel i)
@@ -419,10 +453,12 @@ Fixpoint interp (fuel : nat) (k : stack) : lister :=
 
 Definition stack_fuel (k : stack) : nat := (stack_size k + 2)%nat.
 
-Definition listing (k : stack) (q : query) (start : bytes) : Seq err bytes :=
-  let l := interp (stack_fuel k) k in
+Definition ask (l : lister) (q : query) (start : bytes) : Seq err bytes :=
   match q with
   | QRepos => l_repos l start
   | QTags repo => l_tags l repo start
   | QRefs repo dg => l_refs l repo dg
   end.
+
+Definition listing (k : stack) (q : query) (start : bytes) : Seq err bytes :=
+  ask (interp (stack_fuel k) k) q start.
